@@ -488,6 +488,26 @@ func c11HTTP(c *fw.Ctx) {
 				c.Report("http-write-not-applied/"+ch.Format, fmt.Sprintf("%s %s: PUT of %s (status %d) left the value at %v", e.name, pk, js, m.Status, ch.Value), cas)
 			}
 		}
+		if !canW(ch) {
+			// 1b. other JSON spellings of a value (numbers for booleans, strings for numbers, …): the HTTP path may treat
+			// them differently from the generic conversion, the permission must hold for each
+			for _, js := range []string{`1`, `0`, `2`, `1.0`, `-1`, `"1"`, `"true"`, `true`, `false`, `5.5`, `"x"`} {
+				c.Eval(1)
+				before, r0, l0 := ch.Value, remote[ch], local[ch]
+				if _, _, err := put(fmt.Sprintf(`{"characteristics":[{%s,"value":%s}]}`, id, js)); err != nil {
+					c.Infra("PUT failed: " + err.Error())
+					return
+				}
+				if !reflect.DeepEqual(ch.Value, before) {
+					c.Report("http-write-without-pw-changed-value/spelling/"+ch.Format, fmt.Sprintf("%s %s: PUT of %s changed the value from %v to %v", e.name, pk, js, before, ch.Value), cas)
+					break
+				}
+				if remote[ch] != r0 || local[ch] != l0 {
+					c.Report("http-write-without-pw-invoked-callback/spelling/"+ch.Format, fmt.Sprintf("%s %s: PUT of %s invoked application callbacks", e.name, pk, js), cas)
+					break
+				}
+			}
+		}
 		// 2. read
 		c.Eval(1)
 		m, _, err = k.Do("GET", fmt.Sprintf("/characteristics?id=%d.%d", e.acc.ID, ch.ID), "", nil)
@@ -685,7 +705,7 @@ func init() {
 	fw.Register(&fw.Check{
 		ID:    "C11",
 		Level: "exploration",
-		Rule:  "every characteristic constructor found in /repo with its own permissions plus the five generic constructors under all 8 subsets of {pr,pw,ev}. In-process: every subject × ≈40 JSON-like values through UpdateValueFromConnection, alone and after each of five first events that change nothing (local update with the same value, ignored local updates, a remote read with and without a read callback, a remote write of the current value), (and UpdateValue for write-only ones): without pw value and all callback counters unchanged; without pr no value stored or encoded. HTTP (real transport, verified controller): per characteristic a changing valid PUT, a GET, ev=true, value+ev in one entry, then a local and a remote change followed by a barrier request: without pw nothing changes and no callback fires; without pr no value is stored or revealed (also while the application has a read callback installed, and for library characteristics whose permissions the application narrowed to write-only after they had a value: GET /characteristics is refused by permission, not by absence of a value); without ev the subscription entry is answered with a non-zero status (also for non-boolean spellings of the flag) and no EVENT follows; an EVENT for an observable characteristic without pr carries no value. distinct_nontrivial = distinct (path, format, permission set) classes The permissions a subject is DECLARED to have are taken from gen/metadata.json (by type id), not from the object; subjects whose permission sets come from the exported helpers (PermsAll/Read/ReadOnly/WriteOnly) are built while other code extends and edits the helpers' results; a rejected subscription inside requests with entries that succeed (before / after it) still carries its status. Plus, in a subprocess built with a scheduling point before EVERY statement of hc's packages (textual insertion through go build -overlay): every interleaving with at most 1 (thorough 2) preemptions of pairs of operations on disjoint objects — and, where the property is about served requests, of pairs of handlers on two verified connections of one accessory touching different characteristics — each side must observe exactly what it observes when the two run one after the other (module-level mutable state is what makes them differ).",
+		Rule:  "every characteristic constructor found in /repo with its own permissions plus the five generic constructors under all 8 subsets of {pr,pw,ev}. In-process: every subject × ≈40 JSON-like values through UpdateValueFromConnection, alone and after each of five first events that change nothing (local update with the same value, ignored local updates, a remote read with and without a read callback, a remote write of the current value), (and UpdateValue for write-only ones): without pw value and all callback counters unchanged; without pr no value stored or encoded. HTTP (real transport, verified controller): per characteristic a changing valid PUT, a GET, ev=true, value+ev in one entry, then a local and a remote change followed by a barrier request: without pw nothing changes and no callback fires (also for 11 other JSON spellings of a value: numbers for booleans, strings for numbers, …); without pr no value is stored or revealed (also while the application has a read callback installed, and for library characteristics whose permissions the application narrowed to write-only after they had a value: GET /characteristics is refused by permission, not by absence of a value); without ev the subscription entry is answered with a non-zero status (also for non-boolean spellings of the flag) and no EVENT follows; an EVENT for an observable characteristic without pr carries no value. distinct_nontrivial = distinct (path, format, permission set) classes The permissions a subject is DECLARED to have are taken from gen/metadata.json (by type id), not from the object; subjects whose permission sets come from the exported helpers (PermsAll/Read/ReadOnly/WriteOnly) are built while other code extends and edits the helpers' results; a rejected subscription inside requests with entries that succeed (before / after it) still carries its status. Plus, in a subprocess built with a scheduling point before EVERY statement of hc's packages (textual insertion through go build -overlay): every interleaving with at most 1 (thorough 2) preemptions of pairs of operations on disjoint objects — and, where the property is about served requests, of pairs of handlers on two verified connections of one accessory touching different characteristics — each side must observe exactly what it observes when the two run one after the other (module-level mutable state is what makes them differ).",
 		Run:   c11Run,
 		Replay: func(c *fw.Ctx, raw json.RawMessage) {
 			var cas c11Case
